@@ -34,9 +34,34 @@ type ViolationDetail struct {
 	Count   int64    `json:"schedules_showing_it"`
 }
 
+var scratchDirs []string
+
+// scratch returns a private directory with a random name (pids are not
+// unique across the sandboxes sharing /dev/shm, so vk.Scratch's per-pid
+// directory can be removed by an unrelated process).
+func scratch(tag string) string {
+	base := "/dev/shm"
+	if st, err := os.Stat(base); err != nil || !st.IsDir() {
+		base = os.TempDir()
+	}
+	d, err := os.MkdirTemp(base, "verif-"+tag+"-")
+	if err != nil {
+		panic(err)
+	}
+	scratchDirs = append(scratchDirs, d)
+	return d
+}
+
+func cleanScratch() {
+	for _, d := range scratchDirs {
+		_ = os.RemoveAll(d)
+	}
+	scratchDirs = nil
+}
+
 func checkError(format string, a ...any) {
 	fmt.Printf("CHECK-ERROR (engine, not a property violation): "+format+"\n", a...)
-	vk.CleanScratch()
+	cleanScratch()
 	os.Exit(3)
 }
 
@@ -48,8 +73,7 @@ func RunCheck(r *vk.Run, cfgs []*Config, o CheckOpts) {
 		replayCase(r, cfgs)
 		return
 	}
-	dir, cleanup := vk.Scratch("sched")
-	defer cleanup()
+	dir := scratch("sched")
 	procs := o.Procs
 	if procs == 0 {
 		procs = runtime.NumCPU()
@@ -300,7 +324,7 @@ func RunCheck(r *vk.Run, cfgs []*Config, o CheckOpts) {
 	if completed < o.MaxBound && !anyNew {
 		cov["exhaustive"] = false
 	}
-	vk.CleanScratch()
+	cleanScratch()
 	r.Finish(cov, o.Assumptions)
 }
 
